@@ -15,6 +15,8 @@ structure W where
   accepted : List Nat                -- in acceptance order
   cause : Option Nat                 -- cancel cause of the worker context (write-once)
   done : Bool
+  /-- cancel cause of the context `NewJob` looks at (write-once): `some none` = Done, `some (some e)` = job error -/
+  njCause : Option (Option Nat) := none
 deriving Repr
 
 def init (semSize : Nat) : W := { semSize := semSize, running := [], finished := [], accepted := [], cause := none, done := false }
@@ -39,9 +41,10 @@ def step (w : W) : Ev → W × Res
   | .finish j err =>
     if j ∈ w.running then
       ({ w with running := w.running.filter (fun x => !(x = j)), finished := w.finished ++ [(j, err)],
-                cause := match w.cause with | some c => some c | none => err }, .ok)
+                cause := match w.cause with | some c => some c | none => err,
+                njCause := match w.njCause with | some c => some c | none => err.map some }, .ok)
     else (w, .blocked)
-  | .done => ({ w with done := true }, .ok)
+  | .done => ({ w with done := true, njCause := match w.njCause with | some c => some c | none => some none }, .ok)
   | .wait =>
     match w.cause with
     | some e => (w, .waitErr e)
